@@ -321,13 +321,16 @@ def logClearedAll (s : State P) : List (Nat × Entry) → State P
   | (k, e) :: rest => logClearedAll (s.logRemoved k e .cleared) rest
 
 /-- `Cache::clear`: per shard `on_remove` for every key, maps emptied, every policy `clear()`ed,
-    `current_cost := 0`.  Timers, event buffers and batchers are left as they are; no notification. -/
+    `current_cost.fetch_sub(Σ cost of the entries removed)` (wrapping; since /repo 7e5c084 — it used
+    to be `current_cost := 0`).  Timers, event buffers and batchers are left as they are; no
+    notification. -/
 def State.clearAll (cfg : Cfg) (ops : PolicyOps P) (o : Oracle) (s : State P) : State P :=
+  let removedCost := (s.map.map (·.2.cost)).sum
   let shards := List.range cfg.nshards
   let s := shards.foldl (fun s i => (s.shardKeys cfg o.remHint i).foldl (fun s k => s.polRemove ops i k) s) s
   let s := logClearedAll s s.map
   let s := { s with map := [] }
   let s := shards.foldl (fun s i => s.polClear ops i) s
-  { s with met := { s.met with currentCost := 0 } }
+  { s with met := { s.met with currentCost := subW s.met.currentCost removedCost } }
 
 end Fv.Cache
